@@ -97,7 +97,7 @@ def downstream(kind):
 class C13(Check):
     ID = 'C13'
     LEVEL = 'fault_enumeration'
-    BUDGET = {'quick': 30, 'thorough': 300}
+    BUDGET = {'quick': 30, 'thorough': 240}
     RULE = ('case = (failing operator in map/starmap/filter/scan/scan(reduce), handler in ignore/error.map/router/none placed directly after it, stateful operator downstream '
             '(running sum, distinct, lag, count, none), context: one multiplexed key or group_by with 2-3 interleaved keys, input of n items, fault set F). Fault model: the user '
             'function raises on exactly the items of F. EVERY subset F of EVERY input of n <= 6 (quick) / 8 (thorough) items - first, last, consecutive, all items are among them - '
@@ -128,7 +128,7 @@ class C13(Check):
         self.box_done = 1
 
     def _random(self, rng, tier):
-        k = 1500 if tier == 'quick' else 15000
+        k = 1500 if tier == 'quick' else 10 ** 7
         for j in range(k):
             n = rng.choice([8, 12, 20, 40])
             F = sorted(rng.sample(range(n), rng.choice([1, 2, n // 3, n // 2, n - 1, n])))
